@@ -58,8 +58,10 @@ func readAll(r storage.KVPairReader, buf int) []*storage.KVPair {
 	return out
 }
 
-func BPlus() {
-	real := bplus.NewBPlusTreeStore()
+func BPlus() { Run(bplus.NewBPlusTreeStore()) }
+
+// Run is the differential check of any storage.Store against the model.
+func Run(real storage.Store) {
 	model := models.NewMemStore()
 	// phase 1: up to WRITES entries written in batches of 1..BATCH mutations
 	writes := 1 + rt.Choose("writes", rt.Param("WRITES", 3))
